@@ -288,7 +288,12 @@ func firstWords(s string) string {
 // Run is the body of TestProp for C01/C15.
 func Run(t *rapid.T, rtl bool) {
 	c := Gen(t, rtl)
-	err := h.Safely(func() error { return Check(c) })
+	err := h.Safely(func() error {
+		if err := Check(c); err != nil {
+			return err
+		}
+		return CheckMirror(c)
+	})
 	if err != nil {
 		red := c
 		if f, ok := err.(*Failure); ok {
